@@ -34,6 +34,13 @@ MergeT(A, B) ==
       Rank(k) == Cardinality({j \in DOMAIN all : all[j][1] < all[k][1]}) + 1
       sorted == [r \in DOMAIN all |-> all[CHOOSE k \in DOMAIN all : Rank(k) = r]]
   IN [poses |-> [k \in DOMAIN sorted |-> sorted[k][2]], stamps |-> [k \in DOMAIN sorted |-> sorted[k][1]], proj |-> FALSE]
+\* the same for any number of trajectories (flattened first: nested MergeT calls are re-evaluated by TLC at every reference)
+MergeSeq(Ts) ==
+  LET Flat[i \in 0..Len(Ts)] == IF i = 0 THEN <<>> ELSE Flat[i - 1] \o [k \in 1..N(Ts[i]) |-> <<Ts[i].stamps[k], Ts[i].poses[k]>>]
+      all == Flat[Len(Ts)]
+      rank == [k \in DOMAIN all |-> Cardinality({j \in DOMAIN all : all[j][1] < all[k][1]}) + 1]
+      sorted == [r \in DOMAIN all |-> all[CHOOSE k \in DOMAIN all : rank[k] = r]]
+  IN [poses |-> [k \in DOMAIN sorted |-> sorted[k][2]], stamps |-> [k \in DOMAIN sorted |-> sorted[k][1]], proj |-> FALSE]
 Shift(T, d) == [T EXCEPT !.stamps = [k \in DOMAIN T.stamps |-> T.stamps[k] + d]]
 \* association of an estimate with the reference: pairs of equal-or-near stamps (the generated constellations have no ties)
 Near(ref, T, md) == {<<i, j>> \in (1..N(ref)) \X (1..N(T)) :
@@ -61,7 +68,7 @@ ProjStage(T, pl) == IF pl = "none" THEN T ELSE DocProject(T, pl)
 \* the exported trajectories: <<list of estimate outputs, reference output (or <<>>)>>
 RefOut(c) == IF ~c.useref THEN <<>> ELSE <<ProjStage(MFilt(Down(c.ref, c.q.down), c.q.mf), c.q.plane)>>
 PreEst(c) == LET pre == [k \in DOMAIN c.trajs |-> MFilt(Down(c.trajs[k], c.q.down), c.q.mf)]
-                 merged == IF c.q.merge THEN <<MergeT(pre[1], pre[2])>> ELSE pre
+                 merged == IF ~c.q.merge THEN pre ELSE <<MergeSeq(pre)>>
              IN [k \in DOMAIN merged |-> Shift(merged[k], c.q.toff)]
 EstOut(c) ==
   LET ref1 == MFilt(Down(c.ref, c.q.down), c.q.mf) IN
@@ -113,6 +120,7 @@ AlignN(T, ref, mode, n) ==
   ELSE MapPoses(T, LAMBDA P : InvSimPose(Pose(g, t), s, P))
 AlignNDefined(T, ref, mode, n) ==
   /\ n <= N(T) /\ N(T) = N(ref) /\ FitsN(T, ref, n) # {}
+  /\ \A x, y \in FitsN(T, ref, n) : x[1] = y[1]          \* the first n points determine the rotation (collinear points are refused by evo: C03)
   /\ LET f == CHOOSE x \in FitsN(T, ref, n) : TRUE IN
        IF mode = "scale" THEN DivisibleBy(T, f[2]) ELSE InvDivides(T, Pose(f[1], f[3]), f[2])
 AlignedEst(c) == IF c.q.nalign = 0 THEN AlignStage(SyncedEst(c), SyncedRef(c), c.q.mode)
@@ -151,6 +159,26 @@ RpeMetersVerdict(c, o) ==
                             /\ o.err = [k \in DOMAIN prs |-> PairErr(c, prs[k])]
      THEN "ok" ELSE "NotTheSelectedPairsOrValues"
 
+\* delta in degrees / radians (given here in degrees; never a sum of the lattice angles 90, 120, 180): consecutive mode = the chain from
+\* pose 0 on the rotation accumulated over consecutive poses; all-pairs mode = every pair whose direct relative angle lies within
+\* delta (1 +- 0.1) (evo's default relative tolerance), ordered by start pose then end pose
+AngDrv(T) == [steps |-> [k \in 1..(N(T) - 1) |-> AngDeg(RRel(T.poses[k].r, T.poses[k + 1].r))], heads |-> [k \in 1..N(T) |-> 0]]
+AnglePairs(c) ==
+  LET T == IF c.q.fromref THEN FinalRef(c) ELSE FinalEst(c) IN
+  IF ~c.q.allpairs THEN ChainFrom(AngDrv(T), 2 * c.q.delta, 0)
+  ELSE LET n == N(T)
+           InBand(i, j) == LET a == AngDeg(RRel(T.poses[i + 1].r, T.poses[j + 1].r)) IN 10 * a >= 9 * c.q.delta /\ 10 * a <= 11 * c.q.delta
+           F[k \in 0..(n * n)] == IF k = 0 THEN <<>>
+                                  ELSE LET i == (k - 1) \div n  j == (k - 1) % n IN
+                                       IF i < j /\ InBand(i, j) THEN Append(F[k - 1], <<i, j>>) ELSE F[k - 1]
+       IN F[n * n]
+RpeAngleVerdict(c, o) ==
+  LET prs == AnglePairs(c) IN
+  IF /\ Len(prs) > 0
+     /\ o.ts = [k \in DOMAIN prs |-> FinalEst(c).stamps[prs[k][2] + 1]]
+     /\ o.err = [k \in DOMAIN prs |-> PairErr(c, prs[k])]
+  THEN "ok" ELSE "NotTheSelectedPairsOrValues"
+
 RpeExpected(c) ==       \* delta in frames: all pairs (i, i+d) or the chain 0 -> d -> 2d ...
   LET n == N(FinalEst(c))  d == c.q.delta
       starts == IF c.q.allpairs THEN [k \in 1..(IF n - d > 0 THEN n - d ELSE 0) |-> k] ELSE [k \in 1..((n - 1) \div d) |-> (k - 1) * d + 1]
@@ -172,6 +200,7 @@ MetricVerdict(c, o) ==
         ELSE IF o.ts # FinalEst(c).stamps THEN "NotTheRemainingPosePairs"
         ELSE IF o.err # ApeExpected(c) THEN "StoredValuesNotTheDefinitionOnProcessedTrajectories" ELSE "ok")
   ELSE IF c.q.dunit = "m" THEN RpeMetersVerdict(c, o)
+  ELSE IF c.q.dunit \in {"d", "r"} THEN RpeAngleVerdict(c, o)
   ELSE (IF o.ts # RpeStamps(c) THEN "NotTheSelectedPairs"
         ELSE IF o.err # RpeExpected(c) THEN "StoredValuesNotTheDefinitionOnProcessedTrajectories" ELSE "ok")
 ==============================================================================
